@@ -33,6 +33,7 @@ structure St where
   heap : Array (List Val) := #[]
   funcs : Array Closure := #[]
   out : List String := []          -- printed lines, most recent first
+  depth : Nat := 0                 -- active function calls (the VM has 1024 frames, frame 0 is the main code)
   steps : Nat := 20000           -- remaining budget of loop iterations and calls (0 = give up: `oof`)
   deriving Inhabited
 
@@ -608,7 +609,12 @@ def callVal : Nat → Val → List Val → St → Sig × St
       | none => (.err "eval", st)
       | some clo =>
         if args.length > clo.params.length then (.err "args", st)
+        else if st.depth ≥ 200 then (.unsupported "recursion deeper than 200 calls", st)
+          -- the VM gives up with a recovered panic once its 1024 frames or 1024 operand slots are
+          -- used up; where exactly depends on the operands pending in each frame, which the
+          -- reference semantics does not track, so it makes no claim about such programs
         else
+          let st := { st with depth := st.depth + 1 }
           -- bind parameters: given arguments, then defaults
           let rec bind (ps : List (String × Option Val)) (as : List Val) (env : Env) (st : St) : Option (Env × St) :=
             match ps, as with
@@ -622,11 +628,11 @@ def callVal : Nat → Val → List Val → St → Sig × St
             match clo.body with
             | .block stmts =>
               match execStmts f stmts env st with
-              | (.ret v, _, st) => (.val v, st)
-              | (.val v, _, st) => (.val v, st)
-              | (.unit, _, st) => (.val .nil, st)
+              | (.ret v, _, st) => (.val v, { st with depth := st.depth - 1 })
+              | (.val v, _, st) => (.val v, { st with depth := st.depth - 1 })
+              | (.unit, _, st) => (.val .nil, { st with depth := st.depth - 1 })
               | (.brk, _, st) | (.cont, _, st) => (.err "compile", st)
-              | (sg, _, st) => (sg, st)
+              | (sg, _, st) => (sg, { st with depth := st.depth - 1 })
             | _ => (.unsupported "function body", st)
     | _ => (.err "type", st)
 
